@@ -78,6 +78,23 @@ def run_chx(spec):
         return _oi(self, *a, **k)
     ss.StateSpace.__init__ = _init
 
+    forkprof = {}
+    if os.environ.get('VF_FORKPROF'):
+        import traceback as _tb
+        _cp = ss.StateSpace.choose_possible
+
+        def _choose(self, *a, **k):
+            st = _tb.extract_stack(limit=150)
+            loc = '?'
+            for fr in reversed(st):
+                if '/repo/' in fr.filename or '/verif/vf/' in fr.filename and 'worker' not in fr.filename:
+                    loc = '%s:%d %s' % (fr.filename.split('/')[-1], fr.lineno, fr.name)
+                    break
+            r = _cp(self, *a, **k)
+            key = '%s -> %s' % (loc, bool(r))
+            forkprof[key] = forkprof.get(key, 0) + 1
+            return r
+        ss.StateSpace.choose_possible = _choose
     mod = importlib.import_module(spec['module'])
     fn = getattr(mod, spec['func'])
     opts = AnalysisOptionSet(per_condition_timeout=float(spec.get('cond_timeout', 120)),
@@ -106,6 +123,8 @@ def run_chx(spec):
         out['why'] = 'no message (no contract found?)'
     out['verdict'] = verdict
     out['cex'] = cex
+    if forkprof:
+        out['forkprof'] = sorted(forkprof.items(), key=lambda kv: -kv[1])[:40]
     return out
 
 
